@@ -38,6 +38,8 @@ var prefix = []fsx.Op{
 	{K: "Mkdir", P: "/w/a", Perm: 0o777}, {K: "Mkdir", P: "/w/b", Perm: 0o777}, {K: "WriteFile", P: "/w/a/x", Data: "0123456789", Perm: 0o666},
 	{K: "WriteFile", P: "/w/b/x", Data: "BX", Perm: 0o666}, {K: "Mkdir", P: "/w/a/d", Perm: 0o777}, {K: "Link", P: "/w/a/x", P2: "/w/b/hl"},
 	{K: "Chmod", P: "/w", Perm: 0o777},
+	// a sibling whose name extends another directory's name (paths related as strings, not as ancestors)
+	{K: "Mkdir", P: "/w/ab", Perm: 0o777}, {K: "WriteFile", P: "/w/ab/y", Data: "ABY", Perm: 0o666},
 }
 
 func raceLog() string {
@@ -348,6 +350,8 @@ var fileOps = []fsx.Op{
 	{K: "Open", P: "/w/a/x", Flag: os.O_RDWR, H: 0}, {K: "FRead", H: 0, N: 4}, {K: "FWrite", H: 0, Data: "ww"}, {K: "FReadAt", H: 0, N: 4, Off: 2}, {K: "FWriteAt", H: 0, Data: "at", Off: 3},
 	{K: "FSeek", H: 0, Off: 1, Whence: 0}, {K: "FTruncate", H: 0, Size: 5}, {K: "FStat", H: 0}, {K: "FSync", H: 0}, {K: "FChmod", H: 0, Perm: 0o666},
 	{K: "Open", P: "/w/a", Flag: os.O_RDONLY, H: 1}, {K: "FReadDir", H: 1, N: 1}, {K: "FReaddirnames", H: 1, N: -1}, {K: "FClose", H: 1},
+	{K: "Rename", P: "/w/a/x", P2: "/w/ab/x"}, {K: "Rename", P: "/w/ab/x", P2: "/w/a/x"}, {K: "Rename", P: "/w/ab/y", P2: "/w/a/y"}, {K: "Rename", P: "/w/a/y", P2: "/w/ab/y"},
+	{K: "Open", P: "/w/ab", Flag: os.O_RDONLY, H: 2}, {K: "FReadDir", H: 2, N: -1}, {K: "FStat", H: 2}, {K: "FClose", H: 2}, {K: "FStat", H: 1}, {K: "FReadDir", H: 1, N: -1},
 	// the handle shared by two goroutines (slot 9)
 	{K: "FRead", H: 9, N: 3}, {K: "FWrite", H: 9, Data: "s"}, {K: "FSeek", H: 9, Off: 0, Whence: 0}, {K: "FStat", H: 9}, {K: "FReadAt", H: 9, N: 2, Off: 0}, {K: "FWriteAt", H: 9, Data: "S", Off: 1}, {K: "FTruncate", H: 9, Size: 3}, {K: "FName", H: 9},
 }
